@@ -13,7 +13,7 @@ from .models import Models
 from .source import Source
 from .spec import Schema
 
-SIDE_MODULES = ["specfns", "vecspec", "autodiff_c", "compiler_c", "analysis_c", "expressions_c", "constraints_c", "problem_c", "derivs_c", "solvers_c", "memo_c", "iterative_c", "jacrow_c", "jaccompile_c", "vectors_c", "lpextract_c", "dispatch_c", "paramframe_c"]
+SIDE_MODULES = ["specfns", "vecspec", "autodiff_c", "compiler_c", "analysis_c", "expressions_c", "constraints_c", "problem_c", "derivs_c", "solvers_c", "memo_c", "iterative_c", "jacrow_c", "jaccompile_c", "vectors_c", "lpextract_c", "dispatch_c", "paramframe_c", "scans_c"]
 
 
 class Engine:
